@@ -24,6 +24,8 @@ def canon(v):
         return '[' + ', '.join(canon(x) for x in v) + ']'
     if isinstance(v, tuple):
         return '(' + ', '.join(canon(x) for x in v) + (',)' if len(v) == 1 else ')')
+    if type(v).__module__ == 'numpy':
+        return '%s<%s>' % (type(v).__name__, ' '.join(repr(v).split()))
     return repr(v)
 
 
@@ -117,6 +119,29 @@ def idx(k, n):
     return k % n
 
 
+@_logged
+def arr(k, n):
+    """a NumPy result: plain array (raw .npy path of the file store), np.matrix (an ndarray subclass with its own `*`), or a 0-d / empty array"""
+    import numpy as np
+    c = k % 4
+    if c == 0:
+        return np.arange(n) + k
+    if c == 1:
+        return np.matrix([[k, 1], [2, n]])
+    if c == 2:
+        return np.array(float(k))
+    return np.zeros((0, n), dtype='i4')
+
+
+@_logged
+def asq(k, a):
+    """a consumer whose result depends on the exact type of a NumPy argument (matrix product vs element-wise product)"""
+    import numpy as np
+    if isinstance(a, np.ndarray):
+        return [type(a).__name__, str(a.dtype), list(a.shape), (a * a).tolist() if a.ndim == 2 and a.shape[0] == a.shape[1] else a.tolist()]
+    return ['not-an-array', num(a), k]
+
+
 # mapper / reducer functions for map, mapreduce, reduce, currymap (plain: called inside jug's own block tasks)
 def dbl(x):
     CALLS.append(('M', 'dbl', x, _w(), ''))
@@ -137,7 +162,7 @@ def mul(a, b):
     return num(a) * num(b)
 
 
-RAW = {n: globals()[n] for n in ('const', 'mk', 'pair', 'add', 'use', 'mkdict', 'inc', 'idx')}
+RAW = {n: globals()[n] for n in ('const', 'mk', 'pair', 'add', 'use', 'mkdict', 'inc', 'idx', 'arr', 'asq')}
 
 
 def jug_namespace():
